@@ -586,10 +586,17 @@ def _check_edges(begin: sc.Variable, end: sc.Variable) -> None:
 
 
 def _check_edge_overlap(begin: sc.Variable, end: sc.Variable) -> None:
-    edges = sc.concat([begin.flatten(to='slit'), end.flatten(to='slit')], dim='edge')
+    begin, end = begin.flatten(to='slit'), end.flatten(to='slit')
+    if len(begin) < 2:
+        return
+    # The slits are arcs on a circle: move every slit into the turn that starts
+    # at the first slit before comparing neighbours.
+    turn = sc.scalar(2 * np.pi, unit='rad').to(unit=begin.unit)
+    shift = sc.floor((begin - begin.min()) / turn) * turn
+    edges = sc.concat([begin - shift, end - shift], dim='edge')
     edges = sc.sort(edges, key=edges['edge', 0])
     begin, end = edges['edge', 0], edges['edge', 1]
-    if sc.any(begin[1:] <= end[:-1]):
+    if sc.any(begin[1:] <= end[:-1]) or sc.any(end[-1] >= begin[0] + turn):
         raise ValueError('The chopper has overlapping slits.')
 
 
